@@ -27,7 +27,7 @@ func rulesC05(c *Ctx) {
 		// provenance of the user headroom
 		hd := p.callsIn(fn, "ugm.Manager.Headroom")
 		for _, call := range hd {
-			ok := len(call.Args) == 3 && p.recvField(fn, call.Args[0], "objects.Application.queuePath") && p.recvField(fn, call.Args[1], "objects.Application.ApplicationID") && p.recvField(fn, call.Args[2], "objects.Application.user")
+			ok := len(call.Args) >= 3 && p.recvField(fn, call.Args[0], "objects.Application.queuePath") && p.recvField(fn, call.Args[1], "objects.Application.ApplicationID") && p.recvField(fn, call.Args[2], "objects.Application.user")
 			c.Check("C05.a", "user headroom of "+shortFn(fnName)+" is for this app, queue path and user", call, ok, "Headroom(%s, %s, %s)", p.Src(call.Args[0]), p.Src(call.Args[1]), p.Src(call.Args[2]))
 			rc, isC := unparen(Recv(call)).(*ast.CallExpr)
 			c.Check("C05.a", "user headroom of "+shortFn(fnName)+" comes from the global manager", call, isC && p.IsCall(rc, "ugm.GetUserManager"), "Headroom called on %s", p.Src(Recv(call)))
@@ -45,7 +45,7 @@ func rulesC05(c *Ctx) {
 			}
 			reqT := T(reqArg, st)
 			ok := p.Holds(st, p.CallAtom(true, func(cl *ast.CallExpr, a Atom) bool {
-				if len(cl.Args) != 1 || !p.IsResOf(a.term(cl.Args[0]), reqT) {
+				if len(cl.Args) < 1 || !p.IsResOf(a.term(cl.Args[0]), reqT) {
 					return false
 				}
 				return Recv(cl) != nil && p.reaches(a.term(Recv(cl)), "ugm.Manager.Headroom")
@@ -95,7 +95,7 @@ func rulesC05(c *Ctx) {
 			}
 			switch x := r.(type) {
 			case *ast.CallExpr:
-				okC := p.IsCall(x, "resources.ComponentWiseMin") && len(x.Args) == 2 && ((isUser(x.Args[0]) && isGroup(x.Args[1])) || (isGroup(x.Args[0]) && isUser(x.Args[1])))
+				okC := p.IsCall(x, "resources.ComponentWiseMin") && len(x.Args) >= 2 && ((isUser(x.Args[0]) && isGroup(x.Args[1])) || (isGroup(x.Args[0]) && isUser(x.Args[1])))
 				c.Check("C05.a", shortFn(nm)+": user and group combined", rs, okC, "%s returns %s, expected the minimum of the user and the group value", nm, p.Src(r))
 			case *ast.BinaryExpr:
 				okC := x.Op.String() == "&&" && ((isUser(x.X) && isGroup(x.Y)) || (isGroup(x.X) && isUser(x.Y)))
@@ -132,7 +132,7 @@ func rulesC05(c *Ctx) {
 		c.Check("C05.a", "tracker headroom recurses down the path", fn.Decl, len(rec) >= 1, "QueueTracker.headroom no longer recurses into the child tracker")
 		sub := false
 		for _, call := range p.callsIn(fn, "resources.SubOnlyExisting") {
-			if len(call.Args) == 2 && p.recvField(fn, call.Args[0], "ugm.QueueTracker.maxResources") && p.recvField(fn, call.Args[1], "ugm.QueueTracker.resourceUsage") {
+			if len(call.Args) >= 2 && p.recvField(fn, call.Args[0], "ugm.QueueTracker.maxResources") && p.recvField(fn, call.Args[1], "ugm.QueueTracker.resourceUsage") {
 				sub = true
 			}
 		}
@@ -293,7 +293,7 @@ func rulesC09(c *Ctx) {
 			held := p.lockHeld(fn, w.Node, func(e ast.Expr) bool { return p.isRecvExpr(fn, e) }, true)
 			c.Check("C09.a", "node reservation stored under the node lock", w.Node, held, "Node.reservations written without the node lock")
 			fits := p.Holds(st, p.CallAtom(true, func(cl *ast.CallExpr, a Atom) bool {
-				return p.recvField(fn, Recv(cl), "objects.Node.totalResource") && len(cl.Args) == 1 && p.IsResOf(a.term(cl.Args[0]), T(paramIdent(fn, 1), st))
+				return p.recvField(fn, Recv(cl), "objects.Node.totalResource") && len(cl.Args) >= 1 && p.IsResOf(a.term(cl.Args[0]), T(paramIdent(fn, 1), st))
 			}, "resources.Resource.FitIn"))
 			c.Check("C09.a", "reservation must fit the empty node", w.Node, fits, "Node.reservations store without totalResource.FitIn(res(ask))")
 		}
@@ -361,10 +361,10 @@ func rulesC09(c *Ctx) {
 				return ok && p.recvField(fn, ix.X, "objects.Application.requests") && p.IsKeyOf(Term{E: ix.Index, Env: t.Env, Frozen: t.Frozen, Idx: -1}, askT)
 			}))
 			c.Check("C09.a", "reservation only for an ask registered on this application", w.Node, reg, "Application.reservations store without sa.requests[key(ask)] != nil; facts: %v", p.FactStrings(st))
-			can := p.Holds(st, p.ResultNilAtom(true, func(cl *ast.CallExpr, a Atom) bool { return len(cl.Args) == 1 && p.Same(a.term(cl.Args[0]), askT) }, "objects.Application.canAllocationReserve"))
+			can := p.Holds(st, p.ResultNilAtom(true, func(cl *ast.CallExpr, a Atom) bool { return len(cl.Args) >= 1 && p.Same(a.term(cl.Args[0]), askT) }, "objects.Application.canAllocationReserve"))
 			c.Check("C09.a", "reservation only for an un-allocated, not yet reserved ask", w.Node, can, "Application.reservations store without canAllocationReserve(ask) == nil")
 			nodeOK := p.Holds(st, p.ResultNilAtom(true, func(cl *ast.CallExpr, a Atom) bool {
-				return p.isParam(fn, Recv(cl), 0) && len(cl.Args) == 2 && p.isRecvExpr(fn, cl.Args[0]) && p.Same(a.term(cl.Args[1]), askT)
+				return p.isParam(fn, Recv(cl), 0) && len(cl.Args) >= 2 && p.isRecvExpr(fn, cl.Args[0]) && p.Same(a.term(cl.Args[1]), askT)
 			}, "objects.Node.Reserve"))
 			c.Check("C09.a", "application reservation only after the node accepted it", w.Node, nodeOK, "Application.reservations store without node.Reserve(sa, ask) == nil")
 			keyOK := false
@@ -425,7 +425,7 @@ func rulesC09(c *Ctx) {
 			// followed by Queue.UnReserve(_, <that count or a sum fed by it>)
 			isB := func(nn ast.Node) bool {
 				cl, ok := nn.(*ast.CallExpr)
-				if !ok || !p.IsCall(cl, "objects.Queue.UnReserve") || len(cl.Args) != 2 {
+				if !ok || !p.IsCall(cl, "objects.Queue.UnReserve") || len(cl.Args) < 2 {
 					return false
 				}
 				id, ok := unparen(cl.Args[1]).(*ast.Ident)
@@ -660,7 +660,7 @@ func rulesC09(c *Ctx) {
 				st := p.StateAt(fn, call)
 				ok := p.Holds(st, p.BoolAtom(true, func(t Term) bool {
 					cl, ok := unparen(t.E).(*ast.CallExpr)
-					return ok && p.recvField(fn, cl.Fun, "objects.treeIterator.accept") && len(cl.Args) == 1 && p.Same(Term{E: cl.Args[0], Env: t.Env, Idx: -1}, T(call.Args[0], st))
+					return ok && p.recvField(fn, cl.Fun, "objects.treeIterator.accept") && len(cl.Args) >= 1 && p.Same(Term{E: cl.Args[0], Env: t.Env, Idx: -1}, T(call.Args[0], st))
 				}))
 				c.Check("C09.c", "iterator visits only accepted nodes", call, ok, "callback invoked for a node without ti.accept(node); facts: %v", p.FactStrings(st))
 			}
@@ -670,7 +670,7 @@ func rulesC09(c *Ctx) {
 	}
 	if fn := c.MustFunc("C09.c", "scheduler.PartitionContext.tryAllocate"); fn != nil {
 		for _, call := range p.callsIn(fn, "objects.Queue.TryAllocate") {
-			ok := len(call.Args) == 4 && p.Src(call.Args[0]) == "pc.GetNodeIterator" && p.Src(call.Args[1]) == "pc.GetFullNodeIterator"
+			ok := len(call.Args) >= 4 && p.Src(call.Args[0]) == "pc.GetNodeIterator" && p.Src(call.Args[1]) == "pc.GetFullNodeIterator"
 			c.Check("C09.c", "normal scheduling gets (unreserved, full) iterators in that order", call, ok, "TryAllocate(%s, %s, ...)", p.Src(call.Args[0]), p.Src(call.Args[1]))
 		}
 	}
@@ -701,7 +701,8 @@ func rulesC09(c *Ctx) {
 				var par ast.Node = call
 				for par != nil {
 					if rs, isR := par.(*ast.RangeStmt); isR {
-						if cl, isC := unparen(rs.X).(*ast.CallExpr); isC && p.IsCall(cl, "objects.Node.GetReservations") {
+						// the reservations of the node, ranged over directly or read into a local first
+						if p.reaches(T(rs.X, p.StateAt(fn, rs)), "objects.Node.GetReservations") {
 							ok = true
 						}
 					}
